@@ -374,7 +374,9 @@ Inductive ty := TInt | TFloat | TStr.
 
 (* what the C text fixes (re-extracted into Generated.v on every run) *)
 Record config := { cf_show_esc : list (N * N); cf_look_esc : list (N * N); cf_look_cont : bool;
-                   cf_float_look_long : bool; cf_int_signext : bool }.
+                   cf_float_look_long : bool; cf_int_signext : bool;
+                   cf_lit_measure : bool;    (* literal pieces advance pos by what scanf consumed (%n) *)
+                   cf_pct_measure : bool     (* the %% piece advances pos by what scanf consumed (%n) *) }.
 
 Definition spec_li : nspec := {| n_conv := 105; n_long := true; n_plus := false; n_space := false;
                                  n_zero := false; n_alt := false; n_width := 0; n_prec := None |}.
@@ -456,12 +458,72 @@ Definition look_value (cf : config) (t : ty) (inp : text) : option (value * nat)
             end
   end.
 
-(* String source: every directive is a fresh vsscanf at s->val + pos; a literal piece only
-   advances pos by its length (its matching result is ignored by scan_from_with). *)
+(* scanf's matching of a literal piece against the input: white space in the format skips any
+   amount of white space, another character must match or the directive stops.
+   Result: remaining input, and whether the whole piece was matched (then a trailing %n is reached) *)
+Fixpoint match_lit (t : text) (inp : text) : text * bool :=
+  match t with
+  | [] => (inp, true)
+  | c :: r =>
+    if is_space c then match_lit r (fst (skip_ws inp 0))
+    else match inp with
+         | d :: inp' => if d =? c then match_lit r inp' else (inp, false)
+         | [] => (inp, false)
+         end
+  end.
+
+(* scan_from_with cuts literal text of the format at every "%%": runs without '%' and single "%%" pieces *)
+Definition c_pct : byte := 37.
+Inductive lpiece := LRun (u : text) | LPct.
+
+Fixpoint lit_pieces (t : text) : list lpiece :=
+  match t with
+  | [] => []
+  | c :: r => if c =? c_pct then LPct :: lit_pieces r
+              else match lit_pieces r with
+                   | LRun u :: ps => LRun (c :: u) :: ps
+                   | ps => LRun [c] :: ps
+                   end
+  end.
+
+(* one piece against the remaining input: remaining input, advance of pos; None = FormatError
+   ("%%" at the end of the input: scanf reports EOF).
+   run:  format_from(input, pos, "<run>%n", &off) with off preset to the run's length (the code as
+         found adds the run's length without measuring: cf_lit_measure = false);
+   "%%": scanf skips white space, then wants a '%'; the code as found adds 2 whatever was consumed. *)
+Definition scan_piece (cf : config) (pc : lpiece) (inp : text) : option (text * nat) :=
+  match pc with
+  | LRun u =>
+    let '(r, ok) := match_lit u inp in
+    Some (r, if cf_lit_measure cf && ok then (length inp - length r)%nat else length u)
+  | LPct =>
+    let r1 := fst (skip_ws inp 0) in
+    match r1 with
+    | [] => None
+    | d :: r2 =>
+      if d =? c_pct then Some (r2, if cf_pct_measure cf then (length inp - length r2)%nat else 2%nat)
+      else Some (r1, if cf_pct_measure cf then 0%nat else 2%nat)
+    end
+  end.
+
+(* String source: every piece and every directive is a fresh vsscanf at s->val + pos *)
+Fixpoint scan_lit_str (cf : config) (txt : text) (pos : nat) (ps : list lpiece) : option nat :=
+  match ps with
+  | [] => Some pos
+  | pc :: r => match scan_piece cf pc (skipn pos txt) with
+               | Some (_, adv) => scan_lit_str cf txt (pos + adv) r
+               | None => None
+               end
+  end.
+
 Fixpoint scan_str (cf : config) (txt : text) (pos : nat) (its : list sitem) (acc : list value) : sres :=
   match its with
   | [] => SOk acc pos
-  | SLit t :: r => scan_str cf txt (pos + length t) r acc
+  | SLit t :: r =>
+    match scan_lit_str cf txt pos (lit_pieces t) with
+    | Some pos' => scan_str cf txt pos' r acc
+    | None => SRaise acc
+    end
   | SLook ty :: r =>
     match look_value cf ty (skipn pos txt) with
     | Some (v, n) => scan_str cf txt (pos + n) r (acc ++ [v])
@@ -474,25 +536,24 @@ Fixpoint scan_str (cf : config) (txt : text) (pos : nat) (its : list sitem) (acc
     end
   end.
 
-(* scanf's matching of a literal piece against a stream: white space in the format skips any
-   amount of white space, another character must match or the directive stops *)
-Fixpoint match_lit (t : text) (inp : text) : text :=
-  match t with
-  | [] => inp
-  | c :: r =>
-    if is_space c then match_lit r (fst (skip_ws inp 0))
-    else match inp with
-         | d :: inp' => if d =? c then match_lit r inp' else inp
-         | [] => inp
-         end
+(* File source: the stream position is what moves; pos is only accounting *)
+Fixpoint scan_lit_file (cf : config) (inp : text) (pos : nat) (ps : list lpiece) : option (text * nat) :=
+  match ps with
+  | [] => Some (inp, pos)
+  | pc :: r => match scan_piece cf pc inp with
+               | Some (inp', adv) => scan_lit_file cf inp' (pos + adv) r
+               | None => None
+               end
   end.
 
-(* File source: the stream position is what moves; pos is only accounting (literal: + its length,
-   conversion: + what %n reported) *)
 Fixpoint scan_file (cf : config) (inp : text) (pos : nat) (its : list sitem) (acc : list value) : sres :=
   match its with
   | [] => SOk acc pos
-  | SLit t :: r => scan_file cf (match_lit t inp) (pos + length t) r acc
+  | SLit t :: r =>
+    match scan_lit_file cf inp pos (lit_pieces t) with
+    | Some (inp', pos') => scan_file cf inp' pos' r acc
+    | None => SRaise acc
+    end
   | SLook ty :: r =>
     match look_value cf ty inp with
     | Some (v, n) => scan_file cf (skipn n inp) (pos + n) r (acc ++ [v])
